@@ -1,7 +1,8 @@
-(* C20/ProofsFloat.v — what %f (six decimals) transmits of a float64 coordinate: the text reads
-   back as round-half-even(|x| * 10^6) / 10^6 with the sign of x, which is always within half a
-   unit of the sixth decimal of x, and within half a unit of the seventh exactly for the
-   coordinates outside the known-finding class. *)
+(* C20/ProofsFloat.v — what formatCoord (strconv.FormatFloat(x, 'f', 7, 64) with one trailing
+   zero trimmed) transmits of a float64 coordinate: the text reads back as
+   round-half-even(|x| * 10^7) / 10^7 with the sign of x, which is within half a unit of the
+   seventh decimal of x — OSM's coordinate resolution — for every finite x.  (%f, six decimals,
+   which the package used before the repair, is not: percent_f_lossy.) *)
 From Coq Require Import ZArith List String Ascii Bool Lia.
 From Verif Require Import C20.Text C20.Types C20.SpecApi C20.ProofsText.
 Import ListNotations.
@@ -10,9 +11,8 @@ Open Scope list_scope.
 
 Definition finite (x : fl) : bool := (f_class x =? 0) && (0 <=? f_m x).
 
-(* six decimals carry x at OSM's resolution (the complement is the known-finding class) *)
-Definition six_decimals_suffice (x : fl) : bool :=
-  coord_faithful true x (f_neg x, scaled 6 x, 6%nat).
+(* the text formatCoord produces *)
+Definition coord_text (x : fl) : str := trim_suffix (lit "0") (fmt_fixed 7 x).
 
 (* ---------- rounding ---------- *)
 
@@ -37,31 +37,38 @@ Proof.
   destruct (Z.even (a / b)); lia.
 Qed.
 
-Lemma scaled_nonneg x : finite x = true -> 0 <= scaled 6 x.
+Lemma pow10_pos d : 0 < 10 ^ Z.of_nat d.
+Proof. apply Z.pow_pos_nonneg; lia. Qed.
+
+Lemma scaled_nonneg d x : finite x = true -> 0 <= scaled (Z.of_nat d) x.
 Proof.
   unfold finite. intros H. apply andb_true_iff in H as [_ Hm]. apply Z.leb_le in Hm.
+  pose proof (pow10_pos d) as HP.
   unfold scaled. destruct (Z.leb_spec 0 (f_e x)).
   - assert (0 < 2 ^ f_e x) by (apply Z.pow_pos_nonneg; lia). nia.
-  - apply rne_div_nonneg; [|apply Z.pow_pos_nonneg; lia].
-    change (10 ^ 6) with 1000000. lia.
+  - apply rne_div_nonneg; [nia|apply Z.pow_pos_nonneg; lia].
 Qed.
 
-Lemma scaled_lax x : finite x = true -> coord_faithful false x (f_neg x, scaled 6 x, 6%nat) = true.
+(* |x| * 10^d and its rounding, cleared of the binary denominator *)
+Lemma scaled_close d x : finite x = true ->
+  let n := scaled (Z.of_nat d) x in
+  let up := 2 ^ Z.max 0 (- f_e x) in
+  2 * Z.abs (n * up - f_m x * 2 ^ Z.max 0 (f_e x) * 10 ^ Z.of_nat d) <= up.
 Proof.
   intros Hf. pose proof Hf as Hf'. unfold finite in Hf'.
-  apply andb_true_iff in Hf' as [Hc Hm]. apply Z.leb_le in Hm.
-  unfold coord_faithful, coord_within. rewrite Hc. cbn [andb].
-  change (10 ^ Z.of_nat 6) with 1000000.
-  apply Z.leb_le. unfold scaled. change (10 ^ 6) with 1000000.
+  apply andb_true_iff in Hf' as [_ Hm]. apply Z.leb_le in Hm.
+  pose proof (pow10_pos d) as HP. cbv zeta. unfold scaled.
   destruct (Z.leb_spec 0 (f_e x)) as [He|He].
   - rewrite (Z.max_l 0 (- f_e x)) by lia. rewrite (Z.max_r 0 (f_e x)) by lia.
-    change (2 ^ 0) with 1. destruct (f_neg x); lia.
+    change (2 ^ 0) with 1.
+    replace (f_m x * 2 ^ f_e x * 10 ^ Z.of_nat d * 1 - f_m x * 2 ^ f_e x * 10 ^ Z.of_nat d) with 0 by ring.
+    cbn. lia.
   - rewrite (Z.max_r 0 (- f_e x)) by lia. rewrite (Z.max_l 0 (f_e x)) by lia.
     change (2 ^ 0) with 1.
     assert (HU : 0 < 2 ^ (- f_e x)) by (apply Z.pow_pos_nonneg; lia).
-    pose proof (rne_div_close (f_m x * 1000000) (2 ^ (- f_e x)) ltac:(lia) HU) as Hcl.
-    set (U := 2 ^ (- f_e x)) in *. set (n := rne_div (f_m x * 1000000) U) in *.
-    destruct (f_neg x); lia.
+    pose proof (rne_div_close (f_m x * 10 ^ Z.of_nat d) (2 ^ (- f_e x)) ltac:(nia) HU) as Hcl.
+    replace (f_m x * 1 * 10 ^ Z.of_nat d) with (f_m x * 10 ^ Z.of_nat d) by ring.
+    exact Hcl.
 Qed.
 
 (* ---------- reading digits back ---------- *)
@@ -118,27 +125,9 @@ Proof.
   apply Z.pow_le_mono_l. lia.
 Qed.
 
-(* ---------- %f ---------- *)
+(* ---------- fixed-point text ---------- *)
 
-Lemma fmt_f_finite x : finite x = true ->
-  fmt_f x = (if f_neg x then ["-"%char] else []) ++
-            udec (scaled 6 x / 1000000) ++ "."%char :: fixed_digits 6 (scaled 6 x).
-Proof.
-  unfold finite. intros H. apply andb_true_iff in H as [Hc _]. apply Z.eqb_eq in Hc.
-  unfold fmt_f. rewrite Hc. reflexivity.
-Qed.
-
-Lemma fmt_f_all P x :
-  finite x = true -> on_digits P -> P "-"%char = true -> P "."%char = true ->
-  forallb P (fmt_f x) = true.
-Proof.
-  intros Hf HP Hm Hd. rewrite (fmt_f_finite x Hf).
-  pose proof (scaled_nonneg x Hf) as Hn.
-  rewrite !forallb_app. cbn [forallb].
-  rewrite udec_all by (exact HP || (apply Z.div_pos; lia)).
-  rewrite fixed_digits_all by exact HP. rewrite Hd.
-  destruct (f_neg x); cbn; rewrite ?Hm; reflexivity.
-Qed.
+Definition sign_text (neg : bool) : str := if neg then ["-"%char] else [].
 
 Lemma head_digit_not_minus s :
   s <> [] -> forallb is_digit s = true -> forall t, strip_minus (s ++ t) = (false, s ++ t).
@@ -149,39 +138,185 @@ Proof.
   apply Ascii.eqb_eq in E. subst a. discriminate Ha.
 Qed.
 
-Lemma fmt_f_read x : finite x = true -> read_decimal (fmt_f x) = Some (f_neg x, scaled 6 x, 6%nat).
+(* sign, integer part, '.', exactly d decimals of n: reads back as n / 10^d *)
+Lemma fixed_text_read neg n d :
+  0 <= n ->
+  read_decimal (sign_text neg ++ udec (n / 10 ^ Z.of_nat d) ++ "."%char :: fixed_digits d n)
+  = Some (neg, n, d).
 Proof.
-  intros Hf. rewrite (fmt_f_finite x Hf).
-  pose proof (scaled_nonneg x Hf) as Hn.
-  set (n := scaled 6 x) in *.
-  assert (Hq : 0 <= n / 1000000) by (apply Z.div_pos; lia).
-  assert (Hip : forallb is_digit (udec (n / 1000000)) = true)
+  intros Hn. pose proof (pow10_pos d) as HP.
+  assert (Hq : 0 <= n / 10 ^ Z.of_nat d) by (apply Z.div_pos; lia).
+  assert (Hip : forallb is_digit (udec (n / 10 ^ Z.of_nat d)) = true)
     by (apply udec_all; [exact is_digit_on_digits|exact Hq]).
-  assert (Hfp : forallb is_digit (fixed_digits 6 n) = true)
+  assert (Hfp : forallb is_digit (fixed_digits d n) = true)
     by (apply fixed_digits_all; exact is_digit_on_digits).
-  assert (Hnd : nochar "." (udec (n / 1000000)) = true)
+  assert (Hnd : nochar "." (udec (n / 10 ^ Z.of_nat d)) = true)
     by (apply udec_all; [exact nodot_on_digits|exact Hq]).
-  assert (Hbody : forall neg,
-    read_body neg (udec (n / 1000000) ++ "."%char :: fixed_digits 6 n) = Some (neg, n, 6%nat)).
-  { intros neg. unfold read_body. rewrite (cut_at_app _ _ _ Hnd). rewrite Hip, Hfp. cbn [andb negb].
-    destruct (udec (n / 1000000)) eqn:Eu; [exfalso; exact (udec_nonempty _ Eu)|].
+  assert (Hbody :
+    read_body neg (udec (n / 10 ^ Z.of_nat d) ++ "."%char :: fixed_digits d n) = Some (neg, n, d)).
+  { unfold read_body. rewrite (cut_at_app _ _ _ Hnd). rewrite Hip, Hfp. cbn [andb negb].
+    destruct (udec (n / 10 ^ Z.of_nat d)) eqn:Eu; [exfalso; exact (udec_nonempty _ Eu)|].
     rewrite <- Eu. rewrite fixed_digits_length.
     unfold digits_value. rewrite fold_left_app.
-    fold (digits_value (udec (n / 1000000))). rewrite (udec_value _ Hq).
-    rewrite fixed_digits_value. change (10 ^ Z.of_nat 6) with 1000000.
-    pose proof (Z.div_mod n 1000000 ltac:(lia)) as Hdm.
-    replace (n / 1000000 * 1000000 + n mod 1000000) with n by lia. reflexivity. }
-  unfold read_decimal. destruct (f_neg x).
-  - cbn [app strip_minus]. rewrite Ascii.eqb_refl. apply Hbody.
-  - cbn [app]. rewrite (head_digit_not_minus _ (udec_nonempty _) Hip). apply Hbody.
+    fold (digits_value (udec (n / 10 ^ Z.of_nat d))). rewrite (udec_value _ Hq).
+    rewrite fixed_digits_value.
+    pose proof (Z.div_mod n (10 ^ Z.of_nat d) ltac:(lia)) as Hdm.
+    replace (n / 10 ^ Z.of_nat d * 10 ^ Z.of_nat d + n mod 10 ^ Z.of_nat d) with n by lia.
+    reflexivity. }
+  unfold read_decimal, sign_text. destruct neg.
+  - cbn [app strip_minus]. rewrite Ascii.eqb_refl. exact Hbody.
+  - cbn [app]. rewrite (head_digit_not_minus _ (udec_nonempty _) Hip). exact Hbody.
 Qed.
 
-(* the coordinate text produced by %f is faithful to six decimals, always; and to seven exactly
-   when six decimals suffice *)
-Lemma fmt_f_coord_ok strict x :
-  finite x = true -> (strict = true -> six_decimals_suffice x = true) ->
-  coord_text_ok strict x (fmt_f x) = true.
+Lemma fmt_fixed_finite d x : finite x = true ->
+  fmt_fixed (S d) x =
+  sign_text (f_neg x) ++ udec (scaled (Z.of_nat (S d)) x / 10 ^ Z.of_nat (S d)) ++
+  "."%char :: fixed_digits (S d) (scaled (Z.of_nat (S d)) x).
 Proof.
-  intros Hf Hs. unfold coord_text_ok. rewrite (fmt_f_read x Hf).
-  destruct strict; [exact (Hs eq_refl)|exact (scaled_lax x Hf)].
+  unfold finite. intros H. apply andb_true_iff in H as [Hc _]. apply Z.eqb_eq in Hc.
+  unfold fmt_fixed. rewrite Hc. reflexivity.
+Qed.
+
+Lemma fmt_fixed_read d x : finite x = true ->
+  read_decimal (fmt_fixed (S d) x) = Some (f_neg x, scaled (Z.of_nat (S d)) x, S d).
+Proof.
+  intros Hf. rewrite (fmt_fixed_finite d x Hf). apply fixed_text_read, scaled_nonneg, Hf.
+Qed.
+
+Lemma fmt_fixed_all P d x :
+  finite x = true -> on_digits P -> P "-"%char = true -> P "."%char = true ->
+  forallb P (fmt_fixed (S d) x) = true.
+Proof.
+  intros Hf HP Hm Hd. rewrite (fmt_fixed_finite d x Hf).
+  pose proof (scaled_nonneg (S d) x Hf) as Hn. pose proof (pow10_pos (S d)) as HP10.
+  rewrite !forallb_app. cbn [forallb].
+  rewrite udec_all by (exact HP || (apply Z.div_pos; lia)).
+  rewrite fixed_digits_all by exact HP. rewrite Hd.
+  unfold sign_text. destruct (f_neg x); cbn; rewrite ?Hm; reflexivity.
+Qed.
+
+(* ---------- TrimSuffix ---------- *)
+
+Lemma str_eqb_cons_nil a s : str_eqb (a :: s) [] = false.
+Proof. reflexivity. Qed.
+
+Lemma trim_suffix_snoc c s a :
+  trim_suffix [c] (s ++ [a]) = if Ascii.eqb a c then s else s ++ [a].
+Proof.
+  induction s as [|x s IH].
+  - cbn. destruct (Ascii.eqb a c); reflexivity.
+  - cbn [app trim_suffix]. 
+    assert (E : str_eqb (x :: s ++ [a]) [c] = false).
+    { change (str_eqb (x :: s ++ [a]) [c]) with (Ascii.eqb x c && str_eqb (s ++ [a]) []).
+      destruct s; cbn [app]; rewrite str_eqb_cons_nil; apply andb_false_r. }
+    rewrite E, IH. destruct (Ascii.eqb a c); reflexivity.
+Qed.
+
+Lemma trim_suffix_all P suf s : forallb P s = true -> forallb P (trim_suffix suf s) = true.
+Proof.
+  induction s as [|a s IH]; intros H; [reflexivity|].
+  cbn in H. apply andb_true_iff in H as [Ha Hs].
+  cbn [trim_suffix]. destruct (str_eqb (a :: s) suf); [reflexivity|].
+  cbn. rewrite Ha, (IH Hs). reflexivity.
+Qed.
+
+Lemma digit_is_zero d : 0 <= d <= 9 -> Ascii.eqb (digit d) "0" = (d =? 0).
+Proof.
+  intros H. destruct (digit_cases d H) as [?|[?|[?|[?|[?|[?|[?|[?|[?|?]]]]]]]]]; subst d; reflexivity.
+Qed.
+
+(* ---------- formatCoord ---------- *)
+
+Lemma coord_text_shape x : finite x = true ->
+  let n := scaled 7 x in
+  coord_text x =
+  if n mod 10 =? 0
+  then sign_text (f_neg x) ++ udec ((n / 10) / 10 ^ Z.of_nat 6) ++ "."%char :: fixed_digits 6 (n / 10)
+  else sign_text (f_neg x) ++ udec (n / 10 ^ Z.of_nat 7) ++ "."%char :: fixed_digits 7 n.
+Proof.
+  intros Hf. cbv zeta. unfold coord_text. rewrite (fmt_fixed_finite 6 x Hf).
+  change (Z.of_nat 7) with 7. set (n := scaled 7 x).
+  change (lit "0") with ["0"%char].
+  assert (E : sign_text (f_neg x) ++ udec (n / 10 ^ 7) ++ "."%char :: fixed_digits 7 n =
+              (sign_text (f_neg x) ++ udec (n / 10 ^ 7) ++ "."%char :: fixed_digits 6 (n / 10))
+              ++ [digit (n mod 10)]).
+  { change (fixed_digits 7 n) with (fixed_digits 6 (n / 10) ++ [digit (n mod 10)]).
+    rewrite <- !app_assoc. reflexivity. }
+  rewrite E.
+  rewrite trim_suffix_snoc.
+  rewrite digit_is_zero by (pose proof (Z.mod_pos_bound n 10 ltac:(lia)); lia).
+  destruct (n mod 10 =? 0).
+  - change (10 ^ Z.of_nat 6) with 1000000. change (10 ^ 7) with 10000000.
+    rewrite Z.div_div by lia. reflexivity.
+  - rewrite <- E. reflexivity.
+Qed.
+
+Lemma coord_text_read x : finite x = true ->
+  let n := scaled 7 x in
+  read_decimal (coord_text x) =
+  Some (if n mod 10 =? 0 then (f_neg x, n / 10, 6%nat) else (f_neg x, n, 7%nat)).
+Proof.
+  intros Hf. cbv zeta. rewrite (coord_text_shape x Hf).
+  pose proof (scaled_nonneg 7 x Hf) as Hn. change (Z.of_nat 7) with 7 in Hn.
+  destruct (scaled 7 x mod 10 =? 0).
+  - apply fixed_text_read. apply Z.div_pos; lia.
+  - apply fixed_text_read. exact Hn.
+Qed.
+
+(* the coordinate text is faithful at OSM's resolution (and a fortiori at six decimals) *)
+Lemma coord_text_faithful strict x : finite x = true -> coord_text_ok strict x (coord_text x) = true.
+Proof.
+  intros Hf. unfold coord_text_ok. rewrite (coord_text_read x Hf).
+  pose proof Hf as Hf'. unfold finite in Hf'. apply andb_true_iff in Hf' as [Hc Hm].
+  pose proof (scaled_close 7 x Hf) as Hcl. cbv zeta in Hcl.
+  change (Z.of_nat 7) with 7 in Hcl. change (10 ^ 7) with 10000000 in Hcl.
+  pose proof (scaled_nonneg 7 x Hf) as Hn. change (Z.of_nat 7) with 7 in Hn.
+  set (n := scaled 7 x) in *. set (up := 2 ^ Z.max 0 (- f_e x)) in *.
+  set (B := f_m x * 2 ^ Z.max 0 (f_e x)) in *.
+  assert (Hup : 0 < up) by (apply Z.pow_pos_nonneg; lia).
+  assert (Hstrict : forall tol, 0 < tol <= 20000000 ->
+    (tol * Z.abs ((if f_neg x then - n else n) * up - (if f_neg x then - f_m x else f_m x) * 2 ^ Z.max 0 (f_e x) * 10000000)
+     <=? up * 10000000) = true).
+  { intros tol Ht. apply Z.leb_le. fold B.
+    assert (E : Z.abs ((if f_neg x then - n else n) * up - (if f_neg x then - f_m x else f_m x) * 2 ^ Z.max 0 (f_e x) * 10000000)
+                = Z.abs (n * up - B * 10000000)).
+    { unfold B. destruct (f_neg x); [|reflexivity].
+      replace (- n * up - - f_m x * 2 ^ Z.max 0 (f_e x) * 10000000)
+        with (- (n * up - f_m x * 2 ^ Z.max 0 (f_e x) * 10000000)) by ring.
+      apply Z.abs_opp. }
+    rewrite E. nia. }
+  destruct (Z.eqb_spec (n mod 10) 0) as [Hz|Hz].
+  - (* trimmed: numerator n/10 over 10^6 *)
+    unfold coord_faithful, coord_within. rewrite Hc. cbn [andb].
+    change (10 ^ Z.of_nat 6) with 1000000. fold up.
+    assert (En : n = 10 * (n / 10)) by (pose proof (Z.div_mod n 10 ltac:(lia)); lia).
+    apply Z.leb_le.
+    assert (E : Z.abs ((if f_neg x then - (n / 10) else n / 10) * up -
+                       (if f_neg x then - f_m x else f_m x) * 2 ^ Z.max 0 (f_e x) * 1000000)
+                = Z.abs ((n / 10) * up - B * 1000000)).
+    { unfold B. destruct (f_neg x); [|reflexivity].
+      replace (- (n / 10) * up - - f_m x * 2 ^ Z.max 0 (f_e x) * 1000000)
+        with (- (n / 10 * up - f_m x * 2 ^ Z.max 0 (f_e x) * 1000000)) by ring.
+      apply Z.abs_opp. }
+    rewrite E.
+    assert (E10 : n * up - B * 10000000 = 10 * ((n / 10) * up - B * 1000000)) by (rewrite En at 1; ring).
+    rewrite E10, Z.abs_mul in Hcl. change (Z.abs 10) with 10 in Hcl.
+    destruct strict; nia.
+  - unfold coord_faithful, coord_within. rewrite Hc. cbn [andb].
+    change (10 ^ Z.of_nat 7) with 10000000. fold up.
+    destruct strict; apply Hstrict; lia.
+Qed.
+
+Lemma coord_text_all P x :
+  finite x = true -> on_digits P -> P "-"%char = true -> P "."%char = true ->
+  forallb P (coord_text x) = true.
+Proof. intros Hf HP Hm Hd. apply trim_suffix_all, fmt_fixed_all; assumption. Qed.
+
+(* before the repair the package printed %f: six decimals lose OSM's seventh *)
+Lemma percent_f_lossy :
+  exists x, finite x = true /\ coord_text_ok true x (fmt_f x) = false /\
+            coord_text_ok true x (coord_text x) = true.
+Proof.
+  exists {| f_class := 0; f_neg := false; f_m := 5059597824406999; f_e := -52 |}.
+  vm_compute. repeat split.
 Qed.
